@@ -16,7 +16,7 @@ pub fn prop() -> Prop {
         id: "C13", title: "Run, step-over, step-out and pauses equal repeated single steps", level: "exploration",
         rule: "Three identical simulators (known initialization, same generated program with calls, traps, loops and sometimes a fault ending, same keyboard input; virtual or real traps). Simulator A executes a random history of up to 12 calls drawn from \
                run, run_with_limit(0/1/2/5/50/1000), run_while(tripwire that stops at its k-th call), run_while(tripwire that clears MCR at its k-th call), step_over, step_out, step_in, interleaved with breakpoint insertions/removals (PC, register and memory breakpoints over all 8 comparators) \
-               and a device that clears MCR at the k-th poll. Shadow B performs each call as a loop of step_in written in the harness from the documented stop conditions (MCR, tripwire, halt, error, breakpoint after an executed step, limit counted in instructions, frame depth). \
+               and a device that clears MCR at the k-th poll. Shadow B performs each call as a loop of step_in written in the harness from the documented stop conditions (MCR, tripwire, halt, error, breakpoint after an executed step, limit counted in instructions, frame depth - tracked by the shadow's own model of calls/traps/returns, not read from the implementation). \
                After every call: result, PC, R0-R7, PSR, instructions_run, frame depth, memory digest, display, hit_halt(), hit_breakpoint(), MCR off. Finally A (breakpoints removed) is run to the end and compared with C, which runs unbroken from the start. \
                Phase 1: a real second thread clears MCR during run() of a non-terminating program; run() must return and the state must equal a shadow stepped to the same instruction count. Non-trivial = history with at least 2 calls that executed instructions; distinct = (program, history).",
         assumptions: &["stop conditions as documented in sim.rs rustdoc", "comparators are re-implemented in the harness", "a wall-clock watchdog on the threaded phase gives 'inconclusive', never a violation"],
@@ -44,7 +44,26 @@ impl Bp {
     fn to_crate(&self) -> Breakpoint { match self { Bp::Pc(a) => Breakpoint::PC(*a), Bp::Reg(r, c) => Breakpoint::Reg { reg: reg(*r as usize), value: c.to_crate() }, Bp::Mem(a, c) => Breakpoint::Mem { addr: *a, value: c.to_crate() } } }
 }
 
-struct Inst { sim: Simulator, ds: BufferedDisplay, arm: Arc<Mutex<Option<u64>>> }
+struct Inst { sim: Simulator, ds: BufferedDisplay, arm: Arc<Mutex<Option<u64>>>, depth: u64 }
+
+/// One step_in of the shadow, keeping an independent model of the frame depth (calls, traps and exception entries push,
+/// RET / JMP R7 and RTI pop, saturating at zero) so that step_over/step_out conditions do not rely on the depth the
+/// implementation reports.
+fn shadow_step(b: &mut Inst, real: bool) -> Result<(), lc3_ensemble::sim::SimErr> {
+    let (pc0, ir0) = (b.sim.pc, b.sim.instructions_run);
+    let w = b.sim.mem[pc0].get();
+    let r = b.sim.step_in();
+    if r.is_ok() {
+        let executed = b.sim.instructions_run != ir0;
+        if executed {
+            match w >> 12 { 0b0100 => b.depth += 1, 0b1111 => b.depth += 1, 0b1100 if w == 0xC1C0 => b.depth = b.depth.saturating_sub(1), 0b1000 => b.depth = b.depth.saturating_sub(1), _ => {} }
+        } else if !(w == 0xF025 && !real && b.sim.pc == pc0) {
+            // no instruction completed but the step succeeded: an exception was vectored to the OS (real traps)
+            b.depth += 1;
+        }
+    }
+    r
+}
 fn mk(text: &str, real: bool, fill: u16, kbd: &[u8]) -> Option<Inst> {
     let mut sim = Simulator::new(SimFlags { use_real_traps: real, machine_init: MachineInitStrategy::Known { value: fill }, ..Default::default() });
     let kb = BufferedKeyboard::default(); kb.get_buffer().write().unwrap().extend(kbd.iter().copied()); sim.device_handler.set_keyboard(kb);
@@ -55,7 +74,7 @@ fn mk(text: &str, real: bool, fill: u16, kbd: &[u8]) -> Option<Inst> {
     let arm: Arc<Mutex<Option<u64>>> = Arc::new(Mutex::new(None));
     let (a2, mcr): (_, Arc<AtomicBool>) = (arm.clone(), sim.mcr().clone());
     sim.device_handler.add_device(InterruptFromFn::new(move || { let mut g = a2.lock().unwrap(); if let Some(k) = g.as_mut() { if *k == 0 { mcr.store(false, Ordering::Relaxed); *g = None; } else { *k -= 1; } } None }), &[]).ok()?;
-    Some(Inst { sim, ds, arm })
+    Some(Inst { sim, ds, arm, depth: 0 })
 }
 fn digest(s: &Simulator) -> u64 { let mut h = 0xcbf29ce484222325u64; for a in 0..=0xFFFFu16 { h ^= s.mem[a].get() as u64; h = h.wrapping_mul(0x100000001b3); } h }
 fn state(i: &Inst) -> (u16, [u16; 8], u16, u64, u64, u64, Vec<u8>) {
@@ -80,13 +99,13 @@ enum Reason { Halt, McrOff, Breakpoint, Tripwire, Error, NotRun }
 fn shadow(b: &mut Inst, call: &Call, bps: &[Bp], real: bool) -> (Result<(), String>, Reason, u64, bool) {
     let mcr = b.sim.mcr().clone();
     if let Call::StepIn = call {
-        let r = b.sim.step_in().map_err(|e| err_kind(&e).to_string());
+        let r = shadow_step(b, real).map_err(|e| err_kind(&e).to_string());
         // a single step that stores to the MCR port is the program halting itself (OS HALT routine under real traps):
         // single steps do not look at MCR, so the execution is over from here on (reported to the caller as Halt)
         let halted = b.sim.observer.get_mem_accesses(0xFFFE).written() && !mcr.load(Ordering::Relaxed);
         return (r, Reason::NotRun, 1, halted);
     }
-    let start_depth = b.sim.frame_stack.len();
+    let start_depth = b.depth;
     if let Call::StepOut = call { if start_depth == 0 { return (Ok(()), Reason::NotRun, 0, false); } }
     mcr.store(true, Ordering::Relaxed);
     let start_ir = b.sim.instructions_run;
@@ -98,14 +117,14 @@ fn shadow(b: &mut Inst, call: &Call, bps: &[Bp], real: bool) -> (Result<(), Stri
             Call::Limit(n) => b.sim.instructions_run.wrapping_sub(start_ir) < *n,
             Call::WhileStop(k) => { calls += 1; calls != *k }
             Call::WhileClearMcr(k) => { calls += 1; if calls == *k { mcr.store(false, Ordering::Relaxed); fired = true; } true }
-            Call::StepOver => { let f = first; first = false; f || start_depth < b.sim.frame_stack.len() }
-            Call::StepOut => { let f = first; first = false; f || start_depth <= b.sim.frame_stack.len() }
+            Call::StepOver => { let f = first; first = false; f || start_depth < b.depth }
+            Call::StepOut => { let f = first; first = false; f || start_depth <= b.depth }
             Call::StepIn => unreachable!(),
         };
         if !cont { break (Ok(()), Reason::Tripwire); }
         let (pc0, ir0, d0) = (b.sim.pc, b.sim.instructions_run, b.sim.frame_stack.len());
         let w = b.sim.mem[pc0].get();
-        if let Err(e) = b.sim.step_in() { break (Err(err_kind(&e).to_string()), Reason::Error); }
+        if let Err(e) = shadow_step(b, real) { break (Err(err_kind(&e).to_string()), Reason::Error); }
         steps += 1;
         if steps > 3_000_000 { break (Err("shadow-step-bound".into()), Reason::Error); }
         // virtual HALT leaves the machine untouched
@@ -228,6 +247,7 @@ fn run(ctx: &mut Ctx) {
         if !a.sim.hit_halt() { ctx.violation("threaded-pause:not-reported-as-mcr-off", "run returned without hit_halt() although MCR was cleared", case()); return; }
         let nrun = a.sim.instructions_run;
         for _ in 0..nrun { if b.sim.step_in().is_err() { break; } }
+        let _ = b.depth;
         if let Some(d) = diff_state(&a, &b) { ctx.violation("threaded-pause:state-differs", format!("after an asynchronous MCR clear at {nrun} instructions: {d}"), case()); return; }
         ctx.nontrivial(nrun);
         ctx.count("threaded-pause.ok");
